@@ -1,9 +1,46 @@
-use llguidance::api::{GrammarInit, ParserLimits, TopLevelGrammar};
+//! scratch probes (not part of any registered check)
+use crate::eng::*;
+use llguidance::api::TopLevelGrammar;
+use llguidance::toktrie::InferenceCapabilities;
+use llguidance::{Matcher, ParserFactory};
+
 pub fn run() {
-    let lark = "start: a b\na: T0 | c\nb: c c\nc: d\nd: T1 T0 | \"\"\nT0: /x/\nT1: /y+/\n";
-    let gi = GrammarInit::Serialized(TopLevelGrammar::from_lark(lark.to_string()));
-    let (g, lex) = gi.to_internal(None, ParserLimits::default()).unwrap();
-    println!("{}", g.to_string(Some(&lex)));
-    let o = g.optimize();
-    println!("{}", o.to_string(Some(&lex)));
+    let args: Vec<String> = std::env::args().collect();
+    // llgverif probe schema '<json>' [literal...]
+    if args.len() >= 4 && args[2] == "schema" {
+        let (ws, eos) = single_byte_vocab();
+        let env = make_env(&ws, eos, false);
+        let v: serde_json::Value = serde_json::from_str(&args[3]).unwrap();
+        let t0 = std::time::Instant::now();
+        let mut f = ParserFactory::new(&env, InferenceCapabilities::default(), &[]).unwrap();
+        f.quiet();
+        match f.create_parser(TopLevelGrammar::from_json_schema(v)) {
+            Err(e) => println!("rejected: {e}"),
+            Ok(p) => {
+                let m = Matcher::new(Ok(p));
+                println!("compiled in {:?}", t0.elapsed());
+                for lit in &args[4..] {
+                    let mut c = m.deep_clone();
+                    let mut ok = true;
+                    for &b in lit.as_bytes() {
+                        if c.is_stopped() {
+                            println!("  stopped: {:?}", c.stop_reason());
+                            ok = false;
+                            break;
+                        }
+                        if let Err(e) = c.consume_token(b as u32) {
+                            println!("FULL ERROR: {}", c.get_error().unwrap_or_default());
+                            println!("  consume error: {} / stop_reason={:?} is_resource={}", e.to_string().lines().next().unwrap_or("").to_string(), c.stop_reason(), is_resource_limit(&c));
+                            ok = false;
+                            break;
+                        }
+                    }
+                    let acc = c.is_accepting();
+                    println!("{lit}: ok={ok} accepting={:?} err={:?} stop={:?} ({:?})", acc.as_ref().map_err(|e| e.to_string().lines().next().unwrap_or("").to_string()), c.get_error().map(|e| e.lines().rev().take(3).collect::<Vec<_>>().join(" | ")), c.stop_reason(), t0.elapsed());
+                    let mk = c.compute_mask();
+                    println!("   mask after: {:?}", mk.map(|m| mask_list(&m)).map_err(|e| e.to_string().lines().next().unwrap_or("").to_string()));
+                }
+            }
+        }
+    }
 }
